@@ -260,6 +260,9 @@ Fixpoint prog_ok (p : prog) : Prop :=
   | PSub w p => wrap_ok w /\ prog_ok p
   | PMap f => fmap_wf f = true
   | PCheck _ => True
+  | PId => True
+  | PMulti _ c alts => cond_ok c /\ (fix all (l : list prog) : Prop :=
+                              match l with [] => True | a :: r => prog_ok a /\ all r end) alts
   | PLoop _ c body _ => cond_ok c /\ prog_ok body
   end.
 
@@ -281,9 +284,11 @@ Lemma prog_ind' (P : prog -> Prop)
   (HU : forall w p, P p -> P (PSub w p))
   (HM : forall f, P (PMap f))
   (HC : forall m, P (PCheck m))
+  (HI : P PId)
+  (HMu : forall id c alts, Forall P alts -> P (PMulti id c alts))
   (HL : forall id c body fuel, P body -> P (PLoop id c body fuel)) : forall p, P p.
 Proof.
-  fix IH 1. intros [w id n|p q|ps|id c alts|w p|f|m|id c body fuel].
+  fix IH 1. intros [w id n|p q|ps|id c alts|w p|f|m| |id c alts|id c body fuel].
   - apply HN.
   - apply HS; apply IH.
   - apply HP. induction ps; constructor; auto.
@@ -291,7 +296,54 @@ Proof.
   - apply HU, IH.
   - apply HM.
   - apply HC.
+  - apply HI.
+  - apply HMu. induction alts; constructor; auto.
   - apply HL, IH.
+Qed.
+
+(* masked maps are maps over the selected sub-list *)
+Lemma mapM_mask_select {X Y} (f : X -> res Y) mask l : forall i,
+  mapM_mask f mask i l = mapM f (select mask i l).
+Proof.
+  induction l as [|a l IH]; intros i; [reflexivity|]. cbn [mapM_mask select].
+  destruct (Nat.testbit mask i); cbn [mapM]; rewrite IH; reflexivity.
+Qed.
+
+Lemma mapMi_mask_select {X Y} (g : nat -> X -> res Y) mask l : forall i j,
+  mapMi_mask g mask i j l = mapMi g j (select mask i l).
+Proof.
+  induction l as [|a l IH]; intros i j; [reflexivity|]. cbn [mapMi_mask select].
+  destruct (Nat.testbit mask i); cbn [mapMi]; rewrite IH; reflexivity.
+Qed.
+
+Lemma forallb_mask_select {X} (h : X -> bool) mask l : forall i,
+  forallb_mask h mask i l = forallb h (select mask i l).
+Proof.
+  induction l as [|a l IH]; intros i; [reflexivity|]. cbn [forallb_mask select].
+  destruct (Nat.testbit mask i); cbn [forallb]; rewrite IH; reflexivity.
+Qed.
+
+Lemma select_Forall {X} (P : X -> Prop) mask l : forall i, Forall P l -> Forall P (select mask i l).
+Proof.
+  induction l as [|a l IH]; intros i H; [constructor|]. inversion H; subst. cbn [select].
+  destruct (Nat.testbit mask i); [constructor|]; auto.
+Qed.
+
+Lemma mapM_length {X Y} (f : X -> res Y) l ys : mapM f l = Ok ys -> List.length ys = List.length l.
+Proof.
+  revert ys. induction l as [|a l IH]; simpl; intros ys H.
+  - inversion H. reflexivity.
+  - apply bind_ok_inv in H as (b & _ & H). apply bind_ok_inv in H as (bs & Ebs & H).
+    inversion H. simpl. f_equal. apply IH, Ebs.
+Qed.
+
+Lemma mapMi_length {X Y} (g : nat -> X -> res Y) l : forall i os,
+  mapMi g i l = Ok os -> List.length os = List.length l.
+Proof.
+  induction l as [|a l IH]; simpl; intros i os H.
+  - inversion H. reflexivity.
+  - apply bind_ok_inv in H as (b & _ & H). apply bind_ok_inv in H as (bs & Ebs & H).
+    inversion H. simpl. f_equal. eapply IH, Ebs.
 Qed.
 
 (* run-time type check of an any-typed edge *)
@@ -550,6 +602,68 @@ Section Run.
         eapply Hcf; reflexivity.
   Qed.
 
+  (* with a non-empty selection a multi-branch runs like the fan-out / fan-in of the selected alternatives *)
+  Lemma multi_value_par ps x : ps <> [] ->
+    (do ys <- mapM (fun p => run_value p x) ps; match ys with [] => Err e_branch | _ => v_merge ys end)
+    = run_value (PPar ps) x.
+  Proof.
+    intros Hne. cbn [run_value].
+    destruct (mapM (fun p => run_value p x) ps) as [ys| |] eqn:E; cbn [res_bind]; auto.
+    apply mapM_length in E. destruct ys; [destruct ps; [congruence|discriminate]|reflexivity].
+  Qed.
+
+  Lemma multi_stream_par pos ps s : ps <> [] ->
+    (do os <- mapMi (fun j p => run_stream mrg (j :: pos) p s) 0%nat ps;
+     match os with [] => Err e_branch | _ => Ok (s_merge (mrg pos) os) end)
+    = run_stream mrg pos (PPar ps) s.
+  Proof.
+    intros Hne. cbn [run_stream].
+    destruct (mapMi (fun j p => run_stream mrg (j :: pos) p s) 0%nat ps) as [os| |] eqn:E; cbn [res_bind]; auto.
+    apply mapMi_length in E. destruct os; [destruct ps; [congruence|discriminate]|reflexivity].
+  Qed.
+
+  Lemma sim_multi pos id c alts :
+    cond_ok c ->
+    Forall (fun p => forall pos, sim (D p) (run_value p) (run_stream mrg pos p)) alts ->
+    sim (D (PMulti id c alts)) (run_value (PMulti id c alts)) (run_stream mrg pos (PMulti id c alts)).
+  Proof.
+    intros (Hany & f & Hc) HF s Hs Hd.
+    cbn [run_value run_stream].
+    assert (Hcond : agree (view_C vconcat nat_concat c s) (res_bind (vsconcat s) (view_I nat_concat c))).
+    { apply (views_agree_lem val nat vconcat nat_concat c f Hc Hany s Hs). }
+    destruct (failed_dec (vsconcat s)) as [(x & Ex)|Hsf].
+    - rewrite Ex in *. cbn [res_bind] in *.
+      destruct (failed_dec (view_I nat_concat c x)) as [(mask & Ei)|Hif].
+      + rewrite Ei in *. apply agree_ok_r in Hcond. rewrite Hcond. cbn [res_bind].
+        rewrite mapM_mask_select, mapMi_mask_select.
+        set (ps := select mask 0 alts).
+        destruct ps as [|p0 ps0] eqn:Eps.
+        * cbn [mapM mapMi res_bind]. split; [exact I|discriminate].
+        * rewrite <- Eps in *.
+          assert (Hne : ps <> []) by (rewrite Eps; discriminate).
+          rewrite (multi_value_par ps x Hne), (multi_stream_par pos ps s Hne).
+          assert (HFs : Forall (fun p => forall pos, sim (D p) (run_value p) (run_stream mrg pos p)) ps).
+          { apply select_Forall, HF. }
+          destruct (sim_par pos ps Hne HFs s Hs) as (Ha & Hn).
+          { intros x' Ex'. assert (x' = x) by congruence. subst x'.
+            specialize (Hd x eq_refl). unfold D in *. cbn [dom_ok] in Hd. rewrite Ei in Hd.
+            rewrite forallb_mask_select, mapM_mask_select in Hd. cbn [dom_ok]. exact Hd. }
+          rewrite Ex in Ha. split; auto.
+      + assert (Hcf : failed (view_C vconcat nat_concat c s)) by (eapply agree_failed_r; eauto).
+        split.
+        * apply agree_failed; [|apply failed_bind, Hif].
+          unfold vsconcatR, sconcatR. apply failed_bind, failed_bind, Hcf.
+        * intros o H. exfalso. destruct (view_C vconcat nat_concat c s); simpl in H; try discriminate.
+          eapply Hcf; reflexivity.
+    - assert (Hcf : failed (view_C vconcat nat_concat c s)).
+      { eapply agree_failed_r; eauto. apply failed_bind, Hsf. }
+      split.
+      + apply agree_failed; [|apply failed_bind, Hsf].
+        unfold vsconcatR, sconcatR. apply failed_bind, failed_bind, Hcf.
+      + intros o H. exfalso. destruct (view_C vconcat nat_concat c s); simpl in H; try discriminate.
+        eapply Hcf; reflexivity.
+  Qed.
+
   (* cycle: the condition reads its own copy of the body's output through the Collect view
      and either sends it round again or lets it leave *)
   Lemma sim_loop pos c body :
@@ -605,7 +719,7 @@ Section Run.
   Theorem run_sim_lem : forall p, prog_ok p ->
     forall pos, sim (D p) (run_value p) (run_stream mrg pos p).
   Proof.
-    induction p as [w id n|p q IHp IHq|ps IH|id c alts IH|w p IHp|f|m|id c body fuel IHb] using prog_ind'; intros Hok pos.
+    induction p as [w id n|p q IHp IHq|ps IH|id c alts IH|w p IHp|f|m| |id c alts IH|id c body fuel IHb] using prog_ind'; intros Hok pos.
     - destruct Hok as (Hw & Hn). cbn [run_value run_stream].
       eapply sim_weaken; [|apply (sim_wrap w _ _ _ Hw (sim_node n Hn))].
       intros x Hx. unfold D in Hx. cbn [dom_ok] in Hx. split; auto.
@@ -623,6 +737,9 @@ Section Run.
       split; auto. intros x2 E2. rewrite E2 in H2. exact H2.
     - cbn [run_value run_stream]. exact (sim_fmap f Hok).
     - cbn [run_value run_stream]. eapply sim_weaken; [|apply sim_check]. auto.
+    - cbn [run_value run_stream]. eapply sim_weaken; [|apply sim_id]. auto.
+    - destruct Hok as (Hc & Hall). apply all_forall in Hall.
+      apply sim_multi; auto. rewrite Forall_forall in *. intros p Hp pos'. apply IH; auto.
     - destruct Hok as (Hc & Hb). cbn [run_value run_stream].
       eapply sim_weaken; [|apply (sim_loop pos c body Hc (IHb Hb) fuel)].
       intros x Hx. exact Hx.
@@ -645,3 +762,18 @@ Section Run.
     unfold g_stream, g_collect, g_transform, g_invoke. auto.
   Qed.
 End Run.
+
+(* what a stream-mode run concatenates to does not depend on how the merges interleave *)
+Theorem interleaving_irrelevant_lem
+  (mrg1 mrg2 : list nat -> list (stream val) -> stream val)
+  (H1 : forall pos ls, Interleaving ls (mrg1 pos ls))
+  (H2 : forall pos ls, Interleaving ls (mrg2 pos ls)) :
+  forall p, prog_ok p ->
+  forall s, s <> [] -> (forall x, vsconcat s = Ok x -> dom_ok p x = true) ->
+    agree (vsconcatR (g_transform mrg1 p s)) (vsconcatR (g_transform mrg2 p s)).
+Proof.
+  intros p Hok s Hs Hd.
+  destruct (run_sim_lem mrg1 H1 p Hok [] s Hs Hd) as (Ha & _).
+  destruct (run_sim_lem mrg2 H2 p Hok [] s Hs Hd) as (Hb & _).
+  unfold g_transform. eapply agree_trans; [exact Ha|apply agree_sym, Hb].
+Qed.
